@@ -97,7 +97,7 @@ class H:
                  cbmc=(), fp=None, caps=None, objbits=12, leak=False, alloc=False, models=(),
                  timeout=None, note='', inputs='', bounds='', incdirs=(), src_defines=(),
                  unconfirmed_ok=(), functions=(), maxdeepen=None, extra_srcs=(), unwind_default=1,
-                 solver=None, nowitness=False):
+                 solver=None, nowitness=False, exclude=None, roots=None):
         self.name = name
         self.src = src                      # path relative to /verif/harness
         self.sources = list(sources)        # repo-relative C files
@@ -124,6 +124,8 @@ class H:
         self.unwind_default = unwind_default
         self.solver = solver
         self.nowitness = nowitness
+        self.roots = roots                  # root descriptor objects for table reachability
+        self.exclude = exclude              # regex: functions never offered as function-pointer targets
 
 
 # ---------------------------------------------------------------------------
@@ -246,7 +248,44 @@ def _norm(s):
     return _canon(t)
 
 
-def fprestrict(inp, outp, overrides, workdir):
+def _syms_in(v, acc):
+    if isinstance(v, dict):
+        if v.get('id') == 'symbol':
+            n = v.get('namedSub', {}).get('identifier', {}).get('id')
+            if n:
+                acc.add(n)
+        for x in v.values():
+            _syms_in(x, acc)
+    elif isinstance(v, list):
+        for x in v:
+            _syms_in(x, acc)
+
+
+def table_reachability(st, roots):
+    """functions stored in static tables: (all of them, those reachable from the root objects)"""
+    refs = {}
+    for n, s in st.items():
+        if s.get('isStaticLifetime') and s['type'].get('id') != 'code' and not s.get('isType') and 'value' in s:
+            acc = set()
+            _syms_in(s['value'], acc)
+            refs[n] = acc
+    isfunc = lambda n: n in st and st[n]['type'].get('id') == 'code'
+    tabled = set(f for acc in refs.values() for f in acc if isfunc(f))
+    seen, todo, reach = set(), [r for r in roots if r in refs], set()
+    while todo:
+        n = todo.pop()
+        if n in seen:
+            continue
+        seen.add(n)
+        for m in refs.get(n, ()):
+            if isfunc(m):
+                reach.add(m)
+            elif m in refs and m not in seen:
+                todo.append(m)
+    return tabled, reach
+
+
+def fprestrict(inp, outp, overrides, workdir, exclude=None, roots=None):
     e = os.path.join(workdir, 'fp_empty.json')
     open(e, 'w').write('{}')
     lab = os.path.join(workdir, 'fp_lab.gb')
@@ -264,9 +303,33 @@ def fprestrict(inp, outp, overrides, workdir):
                 and 'function_pointer_call' not in n and not n.startswith('__CPROVER')):
             funcs.setdefault(_norm(s), []).append(n)
     res = {}
+    if roots:
+        # static objects referenced from function bodies are roots too (e.g. asn_DEF_INTEGER in NativeInteger.c)
+        rc, gso, gse, _ = run(['goto-instrument', '--show-goto-functions', inp], limit=False)
+        cur, code_refs = None, set()
+        statics = set(n for n, s0 in st.items() if s0.get('isStaticLifetime') and s0['type'].get('id') != 'code')
+        for line in gso.splitlines():
+            m = re.match(r'^(\S+) /\* (\S+) \*/$', line)
+            if m:
+                cur = m.group(2)
+                continue
+            if cur in ('__CPROVER_initialize', '__CPROVER__start') or cur is None:
+                continue
+            if 'asn_' in line or 'DEF' in line:
+                for tok in re.findall(r'[A-Za-z_][A-Za-z0-9_$]*', line):
+                    if tok in statics:
+                        code_refs.add(tok)
+        roots = list(roots) + sorted(code_refs)
+    tabled, reach = table_reachability(st, roots) if roots else (set(), set())
     for n, s in st.items():
         if '.function_pointer_call.' in n and not n.endswith('$object'):
             c = funcs.get(_norm(s), [])
+            if roots:
+                # a function that lives only in descriptor tables not reachable from the harness's
+                # root descriptors can never be the callee (asserted by goto-instrument, not assumed)
+                c = [f for f in c if f not in tabled or f in reach]
+            if exclude:
+                c = [f for f in c if not re.search(exclude, f)]
             for pat, fl in overrides.items():
                 if re.fullmatch(pat, n):
                     c = [f for f in fl.split(',') if f in st]
@@ -313,6 +376,9 @@ def parse_cbmc_json(so):
             mm = re.search(r'Runtime Solver: ([\d.e+-]+)s', m)
             if mm:
                 info['solver_s'] = info.get('solver_s', 0.0) + float(mm.group(1))
+            mm = re.search(r'size of program expression: (\d+) steps', m)
+            if mm:
+                info['ssa_steps'] = int(mm.group(1))
             mm = re.search(r'(\d+) variables, (\d+) clauses', m)
             if mm:
                 info['sat_vars'] = int(mm.group(1))
@@ -363,7 +429,7 @@ def deepen(h, gb, bounds, deadline, objbits, logf):
         for p in failed:
             k = unwind_key(p['property'])
             if k is None:
-                return False, 'unexpected failing property during deepening: ' + p['property']
+                return False, 'unexpected failing property during deepening: %s (%s) with unwindset %s' % (p['property'], p.get('description'), _us(bounds))
             cur = bounds.get(k, h.unwind_default)
             new = cur * 2 if cur < 8 else cur + max(2, cur // 2)
             cap = cap_for(h, k)
@@ -382,7 +448,7 @@ SOLVERS = {
     'cadical': ['--sat-solver', 'cadical'],
     'kissat': ['--external-sat-solver', 'kissat'],
 }
-DEFAULT_SOLVER = os.environ.get('VERIF_SOLVER', 'cadical')
+DEFAULT_SOLVER = os.environ.get('VERIF_SOLVER', 'race2')
 
 
 def run_race(cmds, timeout):
@@ -429,14 +495,14 @@ def run_race(cmds, timeout):
 
 def decide(h, gb, bounds, timeout, objbits, extra=()):
     cmd = ['cbmc', gb, '--function', 'harness', '--unwind', str(h.unwind_default), '--unwinding-assertions',
-           '--no-malloc-may-fail', '--drop-unused-functions', '--object-bits', str(objbits), '--json-ui', '--trace']
+           '--no-malloc-may-fail', '--drop-unused-functions', '--object-bits', str(objbits), '--json-ui', '--trace', '--verbosity', '8']
     if bounds:
         cmd += ['--unwindset', _us(bounds)]
     if h.leak:
         cmd += ['--memory-leak-check']
     cmd += h.cbmc + list(extra)
     solver = h.solver or DEFAULT_SOLVER
-    names = ['minisat', 'cadical', 'kissat'] if solver == 'race' else [solver]
+    names = ['minisat', 'cadical', 'kissat'] if solver == 'race' else ['minisat', 'cadical'] if solver == 'race2' else [solver]
     cmds = [['/usr/bin/time', '-f', 'MAXRSS_KB=%M'] + cmd + SOLVERS[n] for n in names]
     idx, rc, so, se, dt = run_race(cmds, timeout)
     rss = None
@@ -531,10 +597,12 @@ class Replayer:
                     continue
                 have.add(os.path.basename(path))
                 todo.append((path, [x for x in fl if not x.startswith('-D__builtin_nanf')]))
-            if not h.gen and any(s.startswith('skeletons/') for s in h.sources):
+            if h.gen or any(s.startswith('skeletons/') for s in h.sources):
                 # complete the native link with the rest of the skeleton library
                 skd = os.path.join(self.stage.src, 'skeletons')
-                sflags = ['-I', skd, '-I', self.stage.src] + list(h.src_defines) + (ALLOC_DEFS if h.alloc else [])
+                ginc = [x for x in build['hflags'] if x.startswith(self.stage.dir + '/gen.')]
+                ginc = [y for x in ginc for y in ('-I', x)]
+                sflags = ginc + ['-I', skd, '-I', self.stage.src] + list(h.src_defines) + (ALLOC_DEFS if h.alloc else [])
                 for f in sorted(os.listdir(skd)):
                     if f.endswith('.c') and f != 'converter-example.c' and f not in have:
                         todo.append((os.path.join(skd, f), sflags))
@@ -608,6 +676,20 @@ class Engine:
         return [k for k in json.load(open(p)).get('findings', []) if k.get('property') == self.prop_id]
 
     def _load_hints(self):
+        # pool: max bound per loop over every known harness (seed for harnesses without own hints;
+        # performance only - the deciding run always carries unwinding assertions)
+        self.pool = {}
+        hd = os.path.join(VERIF, 'hints')
+        if os.path.isdir(hd):
+            for f in os.listdir(hd):
+                if f.endswith('.json'):
+                    try:
+                        for hh in json.load(open(os.path.join(hd, f))).values():
+                            for k, v in hh.get('unwindset', {}).items():
+                                if not k.startswith('harness') and v <= 16:
+                                    self.pool[k] = max(self.pool.get(k, 0), v)
+                    except Exception:
+                        pass
         p = os.path.join(VERIF, 'hints', self.prop_id + '.json')
         if os.path.exists(p):
             return json.load(open(p))
@@ -621,7 +703,7 @@ class Engine:
     # -- building ---------------------------------------------------------
     def build_units(self, h):
         st = self.stage
-        incs = ['-I', COMMON, '-I', os.path.join(st.src, 'skeletons'), '-I', st.src]
+        incs = ['-I', COMMON, '-I', os.path.join(VERIF, 'ref'), '-I', os.path.join(VERIF, 'asn1'), '-I', os.path.join(st.src, 'skeletons'), '-I', st.src]
         for d in h.incdirs:
             incs += ['-I', os.path.join(st.src, d)]
         units = []
@@ -669,7 +751,7 @@ class Engine:
         if rc != 0:
             raise EngineError('goto-cc failed for harness %s:\n%s' % (h.name, (so + se)[-3000:]))
         r = os.path.join(wdir, 'r.gb')
-        res = fprestrict(a, r, h.fp, wdir)
+        res = fprestrict(a, r, h.fp, wdir, h.exclude, h.roots)
         os.unlink(a)
         return r, res
 
@@ -679,7 +761,7 @@ class Engine:
         t0 = time.time()
         wdir = os.path.join(self.stage.dir, 'h.%s.%s' % (h.name, variant))
         os.makedirs(wdir, exist_ok=True)
-        logf = open(os.path.join(wdir, 'log.txt'), 'w')
+        logf = open(os.path.join(wdir, 'log.txt'), 'w', buffering=1)
         try:
             gb, restr = self.make_goto(h, build, variant_defs, wdir)
             res.restrict_sites = len(restr)
@@ -689,6 +771,7 @@ class Engine:
             qcap = h.timeout or (240 if self.tier == 'quick' else 1800)
             dcap = h.maxdeepen or (600 if self.tier == 'quick' else 2400)
             if not bounds and not hint.get('nodeepen'):
+                bounds = dict(self.pool)
                 ok, info = deepen(h, gb, bounds, time.time() + dcap, objbits, logf)
                 if not ok:
                     res.status = 'inconclusive'
